@@ -661,6 +661,34 @@ def _pass_through_and_patterns(chk, repo, cv):
                 chk.ob("REGEX-12", "%s recognises a text by matching all of it" % fn.qualname, ok, fn.where(c), detail="%s(%r)" % (call_attr(c), pat), construct=fn.ident,
                        text="partial pattern test in " + fn.name)
     chk.ob("REGEX-12", "pattern tests examined (%d)" % n_p, n_p >= 1, "mpf/core/utility_functions.py:1", nontrivial=False)
+    # dict|k:v : only a mapping (or nothing) is a dict: every path of _validate_dict that reaches the key/value loop for item_type "dict" has
+    # tested isinstance(item, dict); a string or list is refused, not split into keys (that is the event_handler form)
+    from sa.helpers import feasible_paths
+    vd = cv.methods["_validate_dict"]
+    chk.analysed(vd)
+    dcfg = vd.cfg()
+    loops_ = [h for h in dcfg.nodes if h.kind == "loop" and "item.items()" in src(h.ast.iter)]
+    chk.need(len(loops_) == 1, "DICT-12", "_validate_dict validates key by key", vd)
+    bad = []
+    for pth, fx in feasible_paths(dcfg, dcfg.entry.id, [loops_[0].id]):
+        is_dict_type = fx.get("item_type == 'event_handler'") is not True and fx.get("item_type == 'dict'") is not False
+        if is_dict_type and fx.get("isinstance(item, dict)") is not True and fx.get("not isinstance(item, dict)") is not False:
+            bad.append(pth)
+    chk.ob("DICT-12", "a `dict` setting reaches the key/value validation only as a mapping (anything else was refused)", not bad, vd.where(loops_[0].ast),
+           path=dcfg.fmt_path(bad[0], CV) if bad else None, construct=vd.ident, text="dict validator accepts non-mappings")
+    conv = [n for n, c in dcfg.calls_named("event_config_to_dict")]
+    ok = len(conv) == 1 and dcfg.guards_at(conv[0].id).get("item_type == 'event_handler'") is True
+    chk.ob("DICT-12", "the event-list form (str / list to dict) is applied to event_handler settings only", ok, vd.where(), construct=vd.ident, text="event form scope")
+    # pow2: positive powers of two only
+    p2 = repo.func(UF, "Util.is_power2")
+    chk.analysed(p2)
+    rets = [x for x in walk_local(p2.node) if isinstance(x, ast.Return) and x.value is not None and not isinstance(x.value, ast.Constant)]
+    ok = len(rets) == 1
+    if ok:
+        t = src(rets[0].value).replace(" ", "")
+        ok = ("num&(num-1)" in t or "num&num-1" in t) and ("num!=0" in t or "num>0" in t or "0!=num" in t or "0<num" in t)
+    chk.ob("DICT-12", "is_power2 is the bit test n & (n-1) == 0 on a non-zero number (a popcount of the printed form would accept negatives)", ok, p2.where(),
+           detail=src(rets[0].value) if rets else "", construct=p2.ident, text="power of two test")
 
 
 def _list_helpers(chk, repo):
@@ -776,6 +804,8 @@ def battery():
         M("fractional minutes truncated to whole seconds before scaling", UT, "            return int(float(time_string[:-1]) * 60 * 1000)", "            return int(float(time_string[:-1]) * 60) * 1000", "TABLE-3"),
         M("hex recogniser accepts any text that starts with six hex digits", "mpf/core/utility_functions.py", "return Util.hex_matcher.fullmatch(str(string)) is not None", "return Util.hex_matcher.match(str(string)) is not None", "REGEX-12"),
         M("bool validator passes 1 / 0 through unconverted", CV, "        if isinstance(item, bool):\n            return item", "        if item in (True, False):\n            return item", "PASS-12"),
+        M("dict setting split like an event list", CV, "            if not isinstance(item, dict):\n                raise self.validation_error(item, validation_failure_info, \"Item is not a dict.\", 12)", "            item = Util.event_config_to_dict(item)", "DICT-12"),
+        M("power of two by popcount", UF, "        return num != 0 and ((num & (num - 1)) == 0)", "        return bin(num).count(\"1\") == 1", "DICT-12"),
     ]
 
 
